@@ -27,6 +27,8 @@ pub enum Error {
     EscapeRequiresCodeType {
         found: (TypeNodeId, Location),
     },
+    /// `$e` at stage 0: there is no earlier stage to evaluate `e` in.
+    EscapeOutsideCode(Location),
     LengthMismatch {
         left: (usize, Location),
         right: (usize, Location),
@@ -132,6 +134,9 @@ impl ReportableError for Error {
                     "Escape requires a code value, but found {}",
                     ty.to_type().to_string_for_error()
                 )
+            }
+            Error::EscapeOutsideCode(_) => {
+                format!("Escape cannot be used at stage 0")
             }
             Error::PatternMismatch(..) => format!("Pattern mismatch"),
             Error::LengthMismatch { .. } => format!("Length of the elements are different"),
@@ -330,6 +335,10 @@ impl ReportableError for Error {
                     "escape expects `Code(T)`, but found {}. Escaping nested code containers such as arrays of quoted values is not supported",
                     ty.to_type().to_string_for_error()
                 ),
+            )],
+            Error::EscapeOutsideCode(loc) => vec![(
+                loc.clone(),
+                "there is no earlier stage to evaluate this escape in".to_string(),
             )],
             Error::PatternMismatch((ty, loct), (pat, locp)) => vec![
                 (loct.clone(), ty.to_type().to_string_for_error()),
@@ -2667,6 +2676,9 @@ impl InferContext {
             Expr::Escape(e) => {
                 let loc_e = loc.clone();
                 let prev_stage = self.stage;
+                if prev_stage == EvalStage::Stage(0) {
+                    return Err(vec![Error::EscapeOutsideCode(loc_e)]);
+                }
                 // Decrease stage for escape expression
                 self.stage = prev_stage.decrement();
                 log::trace!("Unstaging escape expression, stage => {:?}", self.stage);
